@@ -722,7 +722,7 @@ fn bit_and(a: Fr, b: Fr) -> Fr {
         a.0[3] & b.0[3],
     ];
     let mut d: BigInt<4> = BigInt::new(c);
-    if d > Fr::MODULUS {
+    if d >= Fr::MODULUS {
         d.sub_with_borrow(&Fr::MODULUS);
     }
 
@@ -739,7 +739,7 @@ fn bit_or(a: Fr, b: Fr) -> Fr {
         a.0[3] | b.0[3],
     ];
     let mut d: BigInt<4> = BigInt::new(c);
-    if d > Fr::MODULUS {
+    if d >= Fr::MODULUS {
         d.sub_with_borrow(&Fr::MODULUS);
     }
 
@@ -756,7 +756,7 @@ fn bit_xor(a: Fr, b: Fr) -> Fr {
         a.0[3] ^ b.0[3],
     ];
     let mut d: BigInt<4> = BigInt::new(c);
-    if d > Fr::MODULUS {
+    if d >= Fr::MODULUS {
         d.sub_with_borrow(&Fr::MODULUS);
     }
 
